@@ -109,7 +109,14 @@ let parse_tx () =
   (* C07: pseudo vetoes "@c07pc" / "@c07open" = actions registered through contexts derived from the transaction's
      context (Store/TxCtx.v; token format in harness/cmd/storageharness/store_c07_ctx.go) *)
   let pseudo nm = List.filter_map (fun ((s, _), i) -> if string_of_name s = nm then Some (string_of_name i) else None) vetoes in
-  if pseudo "@c07pc" <> [] || pseudo "@c07open" <> [] then begin
+  (* C07: panic marks (Store/TxPanic.v; token format in harness/cmd/storageharness/store_c07_panic.go): "@c07pn fail:<joins>" = the
+     FAIL steps panic, "@c07pn persist:<k>:<level>" = PersistEntity panics during operation k, "@c07v <stage>:panic" = the vetoing
+     constraint panics, "@c07pc <site>:<path>:p" = a pre-commit action that panics *)
+  let ends_with suf s = let n = String.length suf and m = String.length s in m >= n && String.sub s (m - n) n = suf in
+  let pn_marks = pseudo "@c07pn" in
+  let veto_panics = List.exists (ends_with ":panic") (pseudo "@c07v") in
+  let has_panic = pn_marks <> [] || veto_panics || List.exists (ends_with ":p") (pseudo "@c07pc") in
+  if pseudo "@c07pc" <> [] || pseudo "@c07open" <> [] || has_panic then begin
     let opn = (match pseudo "@c07open" with m :: _ -> m | [] -> "") in
     let nil = (opn = "nil") in
     let wstep = function 's' -> Some WGetSys | 'n' -> Some WNewSys | 'u' -> Some WUpdCtx | _ -> None in
@@ -118,11 +125,13 @@ let parse_tx () =
       | _ -> (match wstep ch with Some w -> Some (DWrap w) | None -> None) in
     let chars s = List.init (String.length s) (String.get s) in
     let label = ref 0 in
+    let panic_labels = ref [] in
     let regs = List.map (fun r ->
       match String.split_on_char ':' r with
       | [site; path; kind] ->
           incr label;
-          let a = (match kind with "c" -> ACommit (nat_of_int !label) | k -> APre (nat_of_int !label, k = "f")) in
+          let a = (match kind with "c" -> ACommit (nat_of_int !label) | k -> APre (nat_of_int !label, k = "f" || k = "p")) in
+          if kind = "p" then panic_labels := !label :: !panic_labels;
           let path = if path = "-" then "" else path in
           ((if site = "pre" then (if nil then 0 else -1) else int_of_string site), path, a)
       | _ -> failwith ("bad @c07pc " ^ r)) (pseudo "@c07pc") in
@@ -134,7 +143,25 @@ let parse_tx () =
       List.filter_map (fun (site, path, a) ->
         if site = k || (k = no && site > no) then Some (IReg (List.filter_map dstep (chars path), a)) else None) regs
       @ (match x with Some x -> [IOp x] | None -> [])) (List.map (fun x -> Some x) xops @ [None])) in
-    `Ctx (sys, vetoes, { cp_nil = nil; cp_open = (if sys && opn = "" then [WGetSys] else []); cp_before = before; cp_body = body })
+    let cp_open = (if sys && opn = "" then [WGetSys] else []) in
+    if has_panic then begin
+      let fail_joins = List.filter_map (fun m -> match String.split_on_char ':' m with
+        | ["fail"; j] -> Some (List.filter_map (function 'U' -> Some false | 'B' -> Some true | _ -> None) (chars j)) | _ -> None) pn_marks in
+      let persist_at = List.filter_map (fun m -> match String.split_on_char ':' m with
+        | ["persist"; k; _] -> int_of_string_opt k | _ -> None) pn_marks in
+      let opno = ref (-1) in
+      let pbody = List.map (fun it -> match it with
+        | IOp x ->
+            incr opno;
+            if List.mem !opno persist_at && (match x with XBase (OCreate _) | XBase (OUpdate _) | XPersist _ -> true | _ -> false) then PPanicIn x
+            else (match x, fail_joins with XBase OFail, j :: _ -> PPanicHere j | _ -> PI it)
+        | _ -> PI it) body in
+      let pl = !panic_labels in
+      `Panic (sys, vetoes, veto_panics,
+              { pp_nil = nil; pp_open = cp_open; pp_before = before; pp_body = pbody;
+                pp_pre_panics = (fun k -> List.mem (int_of_nat k) pl) })
+    end else
+    `Ctx (sys, vetoes, { cp_nil = nil; cp_open = cp_open; cp_before = before; cp_body = body })
   end else
   if List.for_all (function XBase _ -> true | _ -> false) xops then
     `Plain { tx_sys = sys; tx_vetoes = vetoes; tx_ops = List.map (function XBase o -> o | _ -> OFail) xops; tx_precommit_fails = pcf }
@@ -145,6 +172,7 @@ let parse_tx () =
    std_hooks: store-level listeners of every style, tx-complete listeners), per kind, as HK:<kind>:<n> tokens (n > 0) *)
 let tx_veto_list = function
   | `Plain t -> t.tx_vetoes | `Derived t -> t.xtx_vetoes | `Linked t -> t.ltx_vetoes | `Ctx (_, vetoes, _) -> vetoes
+  | `Panic (_, vetoes, _, _) -> vetoes
 let wants_hook_counts t = List.exists (fun ((s, _), _) -> string_of_name s = "@c07hk") (tx_veto_list t)
 let hk_kind (l : listener) : string =
   let letter = (match l.l_style with
@@ -217,17 +245,28 @@ let () =
       let buf = Buffer.create 4096 in
       while peek () <> None do
         let t = parse_tx () in
+        let panicked = ref false in
+        let ks (a, b) = (List.map kind_str a, b) in
         let ((((rs, bss), committed), st'), evs) = (match t with
-          | `Plain t -> let (((rs, c), s'), e) = run_tx sch fuel !st t in ((((rs, []), c), s'), e)
-          | `Derived t -> let (((rs, c), s'), e) = run_xtx sch fuel !st t in ((((rs, []), c), s'), e)
-          | `Linked t -> run_ltx sch fuel !st t
+          | `Plain t -> let (((rs, c), s'), e) = run_tx sch fuel !st t in ((((List.map kind_str rs, []), c), s'), e)
+          | `Derived t -> let (((rs, c), s'), e) = run_xtx sch fuel !st t in ((((List.map kind_str rs, []), c), s'), e)
+          | `Linked t -> let (((rb, c), s'), e) = run_ltx sch fuel !st t in (((ks rb, c), s'), e)
           | `Ctx (sys, vetoes, p) ->
               let o = ctx_update sch fuel !st sys vetoes p in
-              ((((o.co_results, []), o.co_committed), o.co_state), o.co_events)) in
+              ((((List.map kind_str o.co_results, []), o.co_committed), o.co_state), o.co_events)
+          | `Panic (sys, vetoes, veto_panics, pp) ->
+              (* how a rejection surfaces is not known to the model (Properties/C07Panic.v quantifies over it); the guess - a
+                 veto-kind failure is the panicking constraint - only affects the printed result kind, compared as failed / ok *)
+              let surf _ k = if veto_panics && k = EOther then SPanic else SReturn in
+              let o = ptx_update sch fuel !st sys vetoes surf pp in
+              panicked := (o.p_caller = CPanic);
+              let rstr = function PROk -> "ok" | PRErr k -> kind_str (Some k) | PRPanic -> "panic" in
+              ((((List.map rstr o.p_results, []), o.p_caller = CNil), o.p_state), p_events o)) in
         st := st';
         Buffer.add_string buf "TX R";
-        List.iter (fun r -> Buffer.add_char buf ' '; Buffer.add_string buf (kind_str r)) rs;
+        List.iter (fun r -> Buffer.add_char buf ' '; Buffer.add_string buf r) rs;
         Buffer.add_string buf (if committed then " COMMIT" else " ROLLBACK");
+        if !panicked then Buffer.add_string buf " PANICKED";
         let evl = List.sort compare (List.map (fun e ->
           Printf.sprintf "EV:%s:%s:%s:%s" (string_of_name e.ev_store) (change_str e.ev_change) (hex_of_bytes e.ev_id) (bool_str e.ev_parent)) evs) in
         List.iter (fun e -> Buffer.add_char buf ' '; Buffer.add_string buf e) evl;
